@@ -48,6 +48,25 @@ def observe(m, max_tuples=64):
                 ev['preds'].append([pred_json(p), [param_json(c) for c in tup], x])
         evals[str(w)] = ev
     out['evals'] = evals
+    # read-only use of the model: evaluating sentences with letters / predications the model never saw must not
+    # change what it publishes
+    try:
+        from pytableaux.lang import Atomic, Operator
+        z = Atomic(4, 7)
+        for w in worlds:
+            for s_ in (z, Operator.Negation(z), Operator.Disjunction(z, Operator.Negation(z))):
+                try:
+                    m.value_of(s_, world=w)
+                except Exception:
+                    pass
+            if len(worlds) > 1:
+                for o_ in (Operator.Possibility, Operator.Necessity):
+                    try:
+                        m.value_of(o_(z), world=w)
+                    except Exception:
+                        pass
+    except Exception:
+        pass
     try:
         out['data_after'] = canon_data(m)
     except Exception as e:
